@@ -442,6 +442,9 @@ func (p *Program) verifyFunction(key string) *FuncResult {
 		g.entry = st.clone()
 		g.applyGhostSets(true, "", 0, nil, st)
 		g.execBody(st, "true")
+		if fc != nil && g.pointAssertsApplied != len(fc.PointAsserts) {
+			g.unsupported = append(g.unsupported, fmt.Sprintf("contract-stale: %s: %d of %d point assertions found their anchor", key, g.pointAssertsApplied, len(fc.PointAsserts)))
+		}
 		if fc != nil && g.ghostSetsApplied != len(fc.GhostSets) {
 			g.unsupported = append(g.unsupported, fmt.Sprintf("contract-stale: %s: %d of %d ghost assignments found their anchor", key, g.ghostSetsApplied, len(fc.GhostSets)))
 		}
